@@ -270,7 +270,119 @@ def refused_connect_problems():
     return problems, cases
 
 
+def _lifecycle_worker(seeds):
+    from props import c13
+    from harness import framing as F
+    T = F.load_impl()
+    out = []
+    for sd in seeds:
+        try:
+            c = c13.run_reconnect_case(sd, T)
+            out.append((sd, c['problems'][:2]))
+        except Exception:
+            import traceback
+            out.append((sd, ['harness crash: ' + traceback.format_exc()[-300:]]))
+            try:
+                F.uninstall(T)
+            except Exception:
+                pass
+    return out
+
+
+def connection_lifecycle_problems(ctx):
+    """What the transport is told about a connection must be true of the connection object it drives: on the REAL
+    TcpConnection, re-used across reconnects the way TCPTransport re-uses it (an onDisconnected callback that dials
+    again at once), nothing is delivered after the disconnect notification of a connection, nothing received on one
+    connection is delivered on the next, a new connection starts with an empty stream.  These are the reconnect cases of
+    the C13 harness under its monitor (implementation only here; C13 also compares them with its model)."""
+    import multiprocessing as mp
+    from props import c13
+    n = 600 if ctx.quick else 6000
+    base = (ctx.seed * 7919 + 5) % (2 ** 31)
+    seeds = [s for s in range(base, base + 6 * n) if c13.is_reconnect_seed(s)][:n]
+    nproc = 12
+    chunks = [seeds[i::nproc] for i in range(nproc) if seeds[i::nproc]]
+    with mp.get_context('fork').Pool(len(chunks)) as pool:
+        res = [r for part in pool.map(_lifecycle_worker, chunks) for r in part]
+    bad = [(sd, p) for sd, p in res if p]
+    ctx.monitor['connection_lifecycle_cases'] = {'cases': len(res), 'with_problems': len(bad)}
+    for sd, p in bad[:2]:
+        ctx.violation('C14 monitor on the implementation (connection re-used across reconnects): ' + p[0],
+                      {'kind': 'lifecycle', 'case_seed': sd, 'problems': p}, found_input=True)
+
+
+def callback_disconnect_problems():
+    """A message handler may lose the connection it was called for (its reply hits a reset): on a dialling connection
+    the transport redials at once from the onDisconnected callback, on the SAME TcpConnection object.  What is left of
+    the read burst of the dead connection must not be delivered as coming from the peer after the disconnect
+    notification, and must not leak into the stream of the new connection.  Real TcpConnection on the fake socket layer."""
+    import struct
+    import zlib
+    import pickle
+    import pysyncobj.tcp_connection as T
+    from harness import framing as F
+    problems, cases = [], 0
+    CS = T.CONNECTION_STATE
+
+    def frame(m):
+        z = zlib.compress(pickle.dumps(m, 2), 3)
+        return struct.pack('i', len(z)) + z
+    for n_before in (0, 1):
+        for tail in (0, 1, 3, 9):
+            clock = F.Clock()
+            oracle = F.install(T, clock)
+            try:
+                R = F.Conn(T, clock, oracle, 6, 10 ** 6, reconnect=True)
+                seen = []
+                orig = R._on_msg
+
+                def on_msg(m, R=R, seen=seen, orig=orig):
+                    orig(m)
+                    seen.append(m)
+                    if len(seen) == n_before + 1:
+                        R.c.disconnect()          # the handler's own reply failed: connection lost inside the callback
+                R.c.setOnMessageReceivedCallback(on_msg)
+                burst = b''.join(frame(['burst', i]) for i in range(n_before + 3))
+                part = frame(['burst', 'partial'])[:tail]
+                clock.now += 1
+                R.poll(True, False, False, False, [], [('chunk', burst + part, False)])
+                cases += 1
+                after_disc = False
+                late = []
+                for e in R.log:
+                    if e[0] == 'disc':
+                        after_disc = True
+                    elif e[0] == 'connected':
+                        after_disc = False
+                    elif e[0] == 'msg' and after_disc:
+                        late.append(e)
+                if late:
+                    problems.append('%d message(s) of the dead connection were delivered after its onDisconnected (connection lost '
+                                    'inside a message handler, %d frames in one read)' % (len(late), n_before + 3))
+                if len(R.c._TcpConnection__readBuffer) != 0:
+                    problems.append('the re-dialled connection starts with %d stale bytes of the dead connection in its read buffer'
+                                    % len(R.c._TcpConnection__readBuffer))
+                # the new connection: established, two fresh messages
+                clock.now += 1
+                R.poll(False, True, False, False, [], [])
+                n0 = len(seen)
+                R.poll(True, False, False, False, [], [('chunk', frame(['after', 1]) + frame(['after', 2]), False)])
+                fresh = seen[n0:]
+                if R.c.state == CS.CONNECTED and fresh != [['after', 1], ['after', 2]]:
+                    problems.append('after the reconnect the messages %r were sent, %r were delivered' % ([['after', 1], ['after', 2]], fresh))
+                if R.raised:
+                    problems.append('exception escaped the connection: %r' % (R.raised[:1],))
+            finally:
+                F.uninstall(T)
+    return problems, cases
+
+
 def correspondence(ctx):
+    cp, n_cp = callback_disconnect_problems()
+    ctx.monitor['callback_disconnect_cases'] = n_cp
+    for p_ in cp[:2]:
+        ctx.violation('C14 monitor on the implementation: ' + p_, {'kind': 'callback_disconnect', 'problem': p_}, found_input=True)
+    connection_lifecycle_problems(ctx)
     rp, n_rp = refused_connect_problems()
     ctx.monitor['refused_connect_cases'] = n_rp
     for p_ in rp[:2]:
